@@ -34,7 +34,7 @@ done
 git checkout -- .
 git diff --quiet || echo "WARNING /repo dirty"
 # restore evidence/replays produced on the mutated tree
-cd /verif && git checkout -- evidence 2>/dev/null; git clean -fdq replays evidence 2>/dev/null
+cd /verif && git checkout -- evidence replays 2>/dev/null; git clean -fdq replays evidence 2>/dev/null
 python3 - "$out" "$rc_clean" "$rc_mut" "$tests" "[${res%,}]" <<'PY'
 import json, sys, os
 out, rc_clean, rc_mut, tests, res = sys.argv[1:6]
